@@ -1114,6 +1114,41 @@ def _expand_cases(v):
 _LOOPS = {}
 
 
+def _tail_regions(f, loops):
+    """single-pixel tails: inside a row loop, a conditional outside every pixel loop (`if (w) { ...one more pixel... }`).  Returned in the
+    shape of a loop record: header = first block of the guarded side, blocks = the blocks only that side reaches, end = the block where
+    it rejoins (arriving there is 'one complete iteration').  Only maximal regions that contain no loop block are returned."""
+    inner = set()
+    for L in loops:
+        if not any(l2['parent'] == L['header'] for l2 in loops):
+            inner |= set(L['blocks'])
+    outer = set()
+    for L in loops:
+        if any(l2['parent'] == L['header'] for l2 in loops):
+            outer |= set(L['blocks'])
+    body = outer - inner
+    headers = {L['header'] for L in loops}
+    cands = []
+    for b in sorted(body):
+        t = f.blocks[b].term
+        if t.op != 'br' or not t.a or len(set(t.d['succ'])) != 2:
+            continue
+        for s_ in t.d['succ']:
+            if s_ not in body or s_ in headers:
+                continue
+            reg = {x for x in body if any(t2.i == t.i and s2 == s_ for t2, s2 in f.guard_edges(x))}
+            if s_ not in reg:
+                continue
+            if not any(x.op == 'store' or x.op == 'call' for r in reg for x in f.blocks[r].insts):
+                continue
+            exits = {n for r in reg for n in f.blocks[r].succ if n not in reg}
+            if len(exits) != 1 or (exits & inner):
+                continue
+            cands.append({'header': s_, 'blocks': sorted(reg), 'end': exits.pop(), 'parent': None, 'from': b})
+    out = [c for c in cands if not any(c is not d and c['from'] in d['blocks'] for d in cands)]
+    return out
+
+
 def _loops_of(u):
     import json
     from .. import build
@@ -1445,15 +1480,22 @@ def r10_composite_bodies(ck, P):
                 ls = [L for L in loops.get(fn, []) if not any(l2['parent'] == L['header'] for l2 in loops.get(fn, []))]
                 if not ls:
                     raise Unknown('no pixel loop')
-                for L in ls:
+                for L in ls + _tail_regions(f, loops.get(fn, [])):
                     ex = RExec(P, u, voc, has_mask); ex.loop_header = None; ex.combiner_ops = comb_ops; ex.base = base
                     ex.solid_syms = ({S, SA} if e['src_format'] == solid else set()) | ({M, MA} if msk_fmt == solid else set())
                     ex.mask_bits = has_mask and msk_fmt not in (solid, null) and tables.fmt_info(msk_fmt)['bpp'] == 1
                     pre = ex.prefix_states(f, [None, None], L['header'])
                     mb = ex.mask_bits
-                    ex = RExec(P, u, voc, has_mask); ex.loop_header = L['header']; ex.combiner_ops = comb_ops; ex.base = base; ex.mask_bits = mb
+                    ex = RExec(P, u, voc, has_mask); ex.loop_header = L.get('end', L['header']); ex.combiner_ops = comb_ops; ex.base = base; ex.mask_bits = mb
                     ex.init_states = pre
-                    res = ex.run_paths(f, [None, None], region=set(L['blocks']), start=L['header'])
+                    try:
+                        res = ex.run_paths(f, [None, None], region=set(L['blocks']), start=L['header'])
+                    except Unknown:
+                        if 'end' in L:
+                            continue            # a conditional outside the pixel loops that the vocabulary cannot execute: not a pixel region
+                        raise
+                    if 'end' in L and not any(r == 'd' for assum, rv, writes, notes, _m in res for r, v in writes):
+                        continue
                     wrote = False
                     for assum, rv, writes, notes, _m in res:
                         vals = [v for r, v in writes if r == 'd']
